@@ -417,6 +417,45 @@ impl Searcher {
     }
 }
 
+/// Verification hooks (compiled only with `--cfg flounder_verif`)
+#[cfg(flounder_verif)]
+impl Searcher {
+    pub fn verif_repetition_len(&self) -> usize {
+        self.repetition.len()
+    }
+    pub fn verif_nodes(&self) -> u64 {
+        self.timer.nodes()
+    }
+    pub fn verif_hash(&self, board: &Board) -> u64 {
+        self.zobrist.hash(board)
+    }
+    pub fn verif_tt_entry(&self, board: &Board) -> Option<(i32, Option<Move>, u8, u8)> {
+        self.transposition_table.retrieve(self.zobrist.hash(board)).map(|e| {
+            let b = match e.bounds {
+                Bounds::Exact => 0,
+                Bounds::Lower => 1,
+                Bounds::Upper => 2,
+            };
+            (e.eval, e.best_move, e.depth, b)
+        })
+    }
+    pub fn verif_tt_len(&self) -> usize {
+        self.transposition_table.verif_len()
+    }
+    pub fn verif_push_position(&mut self, board: &Board) {
+        self.repetition.push(self.zobrist.hash(board));
+    }
+    pub fn verif_is_repetition_draw(&self, board: &Board) -> bool {
+        self.is_draw_by_repetition(board)
+    }
+    pub fn verif_move_generator(&self) -> &MoveGenerator {
+        &self.move_generator
+    }
+    pub fn verif_quiescence(&mut self, board: &Board) -> i32 {
+        self.search_until_quiet(board, NEGATIVE_INFINITY, INFINITY)
+    }
+}
+
 impl Default for Searcher {
     fn default() -> Self {
         Self::new()
